@@ -2,7 +2,7 @@
     from the Go source, Gen/KeysGen.v), chain-name validation
     (host/validate.go) and the key PARSERS the Go iterators use.  No proofs here
     (Proofs/Keys.v, Proofs/KeysParse.v). *)
-From Teleport Require Import Base.Bytes Base.Outcome Base.Fmt Gen.KeysGen.
+From Teleport Require Import Base.Bytes Base.Outcome Base.Fmt Gen.KeysGen Gen.KeysIterGen.
 Local Open Scope N_scope.
 
 (** * Chain names — host/validate.go [defaultIdentifierValidator(id, min, max)] *)
@@ -248,9 +248,66 @@ Definition tm_height_from_iteration_key (k : bytes) : outcome height :=
   h <- go_be_uint64 (skipn 8 be) ;;
   Ok {| rev_number := r; rev_height := h |}.
 
-(** BSC [GetRecentSigners] / [DeleteAllSigner]: [Split(key, "/")[1]] then ParseHeight *)
+(** BSC [parseRecentSignerKey] (used by [GetRecentSigners] / [DeleteAllSigner];
+    /repo 0d61436): [strings.Split(key, "/")] must have exactly two fields —
+    otherwise an error, never an index out of range — then ParseHeight of the
+    second field *)
 Definition bsc_signer_height_parse (k : bytes) : outcome height :=
-  match nth_error (split_sep k) 1 with
-  | None => Panic
-  | Some s => match parse_height_go s with Some h => Ok h | None => Err end
+  match split_sep k with
+  | [_; s] => match parse_height_go s with Some h => Ok h | None => Err end
+  | _ => Err
+  end.
+
+(** * Whole-store iteration
+
+    [ks] = the keys of a store in store order.  [sdk.KVStorePrefixIterator(store,
+    p)] visits exactly the keys with prefix [p], in order.  WHICH prefix every
+    iterator of the Go code scans is REGENERATED from the source
+    (Gen/KeysIterGen.v, translator tools/gotocoq/keysiter): [prefixes_of
+    iterprefix_<pkg>_<Func>]. *)
+Definition keys_with_prefix (p : bytes) (ks : list bytes) : list bytes := filter (is_prefix p) ks.
+
+(** the literal prefixes of a regenerated description; [None] if one of them is a format or unknown *)
+Fixpoint lit_prefixes (l : list iter_prefix) : option (list bytes) :=
+  match l with
+  | [] => Some []
+  | PLit p :: r => match lit_prefixes r with Some ps => Some (p :: ps) | None => None end
+  | _ => None
+  end.
+
+(** an iterator whose prefix the translator does not understand visits nothing in
+    the model: the correspondence then fails on the first non-empty store *)
+Definition prefixes_of (l : list iter_prefix) : list bytes :=
+  match lit_prefixes l with Some ps => ps | None => [] end.
+
+(** one prefix iteration after the other (ExportMetadata of bsc / eth) *)
+Definition keys_with_prefixes (ps : list bytes) (ks : list bytes) : list bytes :=
+  flat_map (fun p => keys_with_prefix p ks) ps.
+
+Fixpoint collect {A} (f : bytes -> seen A) (ks : list bytes) : list A :=
+  match ks with
+  | [] => []
+  | k :: r => match f k with Got x => x :: collect f r | Skip => collect f r end
+  end.
+
+(** tendermint [ClientState.ExportMetadata] (genesis.go): the keys handed out by
+    [IterateProcessedTime], then every key of its own prefix iteration *)
+Definition tm_export_keys (ks : list bytes) : list bytes :=
+  collect iter_processed_time (keys_with_prefixes (prefixes_of iterprefix_tm_IterateProcessedTime) ks)
+  ++ keys_with_prefixes (prefixes_of iterprefix_tm_ClientState_ExportMetadata) ks.
+
+(** bsc / eth [ClientState.ExportMetadata]: plain prefix iterations, one after the other *)
+Definition bsc_export_keys (ks : list bytes) : list bytes :=
+  keys_with_prefixes (prefixes_of iterprefix_bsc_ClientState_ExportMetadata) ks.
+
+Definition eth_export_keys (ks : list bytes) : list bytes :=
+  keys_with_prefixes (prefixes_of iterprefix_eth_ClientState_ExportMetadata) ks.
+
+(** packet keeper [IteratePacketCommitmentByPath(ctx, srcChain, dstChain, cb)]: the
+    prefix is a key format applied to parameters of the function (positions in
+    the Go parameter list: ctx = 0, srcChain = 1, dstChain = 2) *)
+Definition commitment_path_prefix (src dst : bytes) : bytes :=
+  match iterprefix_packetkeeper_IteratePacketCommitmentByPath with
+  | [PFmt f ix] => render f (map (fun i => nth i [VS []; VS src; VS dst] (VS [])) ix)
+  | _ => []
   end.
